@@ -1749,13 +1749,14 @@ class Logarithm:
         symbol: Optional[str] = None,
     ) -> "Logarithm":
         key = (base, prefix)
-        if key in cls._known:
-            return cls._known[key]
+        with _interning:
+            if key in cls._known:
+                return cls._known[key]
 
-        self = super().__new__(cls)
-        self._initialized = False
-        cls._known[key] = self
-        return self
+            self = super().__new__(cls)
+            self._initialized = False
+            cls._known[key] = self
+            return self
 
     def __init__(
         self,
@@ -1843,13 +1844,14 @@ class LogarithmicUnit:
         symbol: Optional[str] = None,
     ) -> "LogarithmicUnit":
         key = (logarithm, reference)
-        if key in cls._known:
-            return cls._known[key]
+        with _interning:
+            if key in cls._known:
+                return cls._known[key]
 
-        self = super().__new__(cls)
-        self._initialized = False
-        cls._known[key] = self
-        return self
+            self = super().__new__(cls)
+            self._initialized = False
+            cls._known[key] = self
+            return self
 
     def __init__(
         self,
